@@ -2,10 +2,12 @@ package gohbase
 
 import (
 	"context"
+	"errors"
 	"time"
 
 	"github.com/tsuna/gohbase/hrpc"
 	"github.com/tsuna/gohbase/region"
+	"github.com/tsuna/gohbase/zk"
 )
 
 // C17 — retries back off and never become a hot loop.
@@ -297,6 +299,57 @@ func VerifEstablishPacing() {
 			verifAssert(d == (16*time.Millisecond)<<uint(i-1), "successive attempts are separated by waits on the schedule")
 		}
 	}
+	verifReach("paced")
+}
+
+// vFlakyZK fails the first `fails` lookups: by an error, or (mode[i] true) by not answering at
+// all, so that the lookup runs into the client's regionLookupTimeout.
+type vFlakyZK struct {
+	fails int
+	calls int
+	stuck []bool
+	never chan struct{}
+}
+
+func (z *vFlakyZK) LocateResource(zk.ResourceName) (string, error) {
+	i := z.calls
+	z.calls++
+	if i < z.fails {
+		if z.stuck[i] {
+			<-z.never
+		}
+		return "", errors.New("verif: zookeeper error")
+	}
+	return "rs0:1", nil
+}
+
+// VerifLookupPacing: the real lookupRegion loop against a ZooKeeper that fails ATTEMPTS times -
+// each time by an error or by silence until the lookup's own timeout - and then answers:
+// consecutive lookups are separated by one wait each, on the schedule.
+func VerifLookupPacing() {
+	vRealLookup = true
+	c := vNewRootClient()
+	c.regionLookupTimeout = 20 * time.Millisecond
+	n := verifParam("ATTEMPTS")
+	z := &vFlakyZK{fails: n, never: make(chan struct{})}
+	for i := 0; i < n; i++ {
+		z.stuck = append(z.stuck, verifBool())
+	}
+	c.zkClient = z
+	var sleeps []time.Duration
+	sleepAndIncreaseBackoffOverride = func(ctx context.Context, b time.Duration) (time.Duration, error) {
+		sleeps = append(sleeps, b)
+		return b * 2, nil
+	}
+	_, addr, err := c.lookupRegion(context.Background(), metaTableName, nil)
+	sleepAndIncreaseBackoffOverride = nil
+	verifAssert(err == nil && addr == "rs0:1", "the lookup succeeds once ZooKeeper answers")
+	verifAssert(z.calls >= n+1, "every failed lookup is retried")
+	verifAssert(len(sleeps) == z.calls-1, "one wait between consecutive lookups, whether the lookup failed by an error or by its timeout")
+	for i, d := range sleeps {
+		verifAssert(d == (16*time.Millisecond)<<uint(i), "the waits follow the schedule")
+	}
+	verifObserveInt("lookups", z.calls)
 	verifReach("paced")
 }
 
